@@ -577,6 +577,30 @@ def run(cx, tier='quick'):
     return rep
 
 
+def binder_leaves(t, path=()):
+    """the values a binder-name term can take: through tuple projections, match / if-let / if alternatives"""
+    from ..terms import match_arms
+    if not isinstance(t, tuple) or not t:
+        return [t]
+    if t[0] == 'proj' and len(t) == 3:
+        return binder_leaves(t[2], (t[1],) + tuple(path))
+    ma = match_arms(t)
+    if ma is not None:
+        out = []
+        for _p, v in ma[1]:
+            out += binder_leaves(v, path)
+        return out
+    if t[0] == 'iflet' and len(t) == 5:
+        return binder_leaves(t[3], path) + binder_leaves(t[4], path)
+    if t[0] == 'ite' and len(t) == 4:
+        return binder_leaves(t[2], path) + binder_leaves(t[3], path)
+    if t[0] == 'tuple' and path and isinstance(path[0], int) and path[0] + 1 < len(t):
+        return binder_leaves(t[1 + path[0]], path[1:])
+    if path:
+        return [('proj',) + tuple(path) + (t,)]
+    return [t]
+
+
 def check_method_capture(cx, rep):
     """METHOD-CAPTURE: a user-supplied function path (`method = path`) interpolated in call position (`#method(a, b)`) is resolved
     inside the generated function, where the template's own parameters and locals (`f`, `state`, `other`, `source`, `builder`, ..)
@@ -609,17 +633,35 @@ def check_method_capture(cx, rep):
                     if f_['k'] == 'Path' and len(f_['path']['segs']) == 1 and is_marker(f_['path']['segs'][0]['id']) and not f_['path']['global']:
                         calls.append((s, marker_name(f_['path']['segs'][0]['id'])))
             visit(s.ast, s.cat, cb)
+        if fixed:
+            # CONST-CAPTURE: a binding pattern that is a bare identifier resolves to a constant of that name if one is in scope, and the
+            # const generic parameters of the user's type are in scope in every generated impl: `struct S<const f: usize>` turns the
+            # generated `fn fmt(&self, f: &mut Formatter)` into a (refutable, ill-typed) constant pattern (E0308 / E0530)
+            n += 1
+            s0 = [s_ for s_ in sites if s_.ast is not None][0]
+            rep.bad('CONST-CAPTURE', fn.qname, 'template-binders=%s' % ','.join(sorted(fixed)),
+                    'the generated functions bind %s with call-site hygiene inside an impl that carries the user\'s generic parameters: a const generic parameter '
+                    'of one of these names (`struct S<const %s: usize>`) captures the binding and the generated code does not compile' % (sorted(fixed), sorted(fixed)[0]),
+                    s0.tmpl.file, s0.tmpl.line, {})
         seen = set()
         for s, h in calls:
             if seen:
                 continue      # one finding per handler: the key names the handler and the capturing locals, not educe's variable names
             t = s.tmpl.hole_term(h)
-            user = any(isinstance(x, tuple) and ((x[0] == 'field' and x[2] == 'method') or x[0] == 'param') for x in _st(t))
+            # (Into keeps the per-target method paths in the attribute's `types` map)
+            user = any(isinstance(x, tuple) and ((x[0] == 'field' and x[2] in ('method', 'types')) or x[0] == 'param') for x in _st(t))
             if not user:
                 continue
             seen.add(h)
             n += 1
-            names = sorted(fixed)
+            # binders named after the user's own fields (`Self::V { #field_name, .. }`) capture as well: `method(millis)` next to a
+            # field `millis`
+            raw_b = []
+            for s_, h_ in named_binders:
+                t_ = s_.tmpl.hole_term(h_)
+                if not all(isinstance(l_, tuple) and l_ and l_[0] == 'format_ident' for l_ in binder_leaves(t_)):
+                    raw_b.append('<fields via #%s>' % h_)
+            names = sorted(fixed) + sorted(set(raw_b))
             if names:
                 rep.bad('METHOD-CAPTURE', fn.qname, 'user-method-called-under=%s' % ','.join(names),
                         'the user\'s `method` path is called as `#%s(..)` inside a generated function whose own parameters / locals %s are in scope with call-site hygiene: '
